@@ -3,6 +3,7 @@
 package logqlengine
 
 import (
+	"strconv"
 	"math"
 	"time"
 
@@ -245,4 +246,70 @@ func VerifHarness_C01_IPLineFilter() {
 	vsymAssert(l1 == line && l2 == line, "ip filters never change the line")
 	vsymFinding("F9", k1 == k2, "`!= ip(x)` is not the complement of `|= ip(x)`: a line without any address is dropped by both, a line with a matching and a non-matching address is kept by both")
 	vsymReach("C01_ip")
+}
+
+// C01-O7: ip() label filters: `| addr = ip(P)` keeps the records whose label
+// is an address inside P (single address, CIDR prefix or range), `!=` the
+// others; a value that is no address keeps the line and flags __error__; a
+// record without the label satisfies neither.
+func VerifHarness_C01_IPLabelFilter() {
+	// label value: 10.0.c.d with c, d from pools, or something else
+	thirds := []int{0, 1}
+	lasts := []int{0, 1, 8, 9, 15, 16, 200, 255}
+	kind := vsymChoice("value", 5) // 0 v4 from the pools, 1 absent, 2 not an address, 3 IPv6, 4 IPv4-mapped IPv6
+	c, d := thirds[vsymChoice("third", len(thirds))], lasts[vsymChoice("last", len(lasts))]
+	set := newLabelSet()
+	val := ""
+	switch kind {
+	case 0:
+		val = "10.0." + strconv.Itoa(c) + "." + strconv.Itoa(d)
+	case 2:
+		val = "10.0.0.256"
+	case 3:
+		val = "2001:db8::1"
+	case 4:
+		val = "::ffff:10.0.0.9"
+	}
+	if kind != 1 {
+		set.Set("addr", pcommon.NewValueStr(val))
+	}
+	pats := []struct {
+		text   string
+		lo, hi int // inclusive bounds of c*256+d
+	}{
+		{"10.0.0.9", 9, 9},
+		{"10.0.0.0/24", 0, 255},
+		{"10.0.0.8/29", 8, 15},
+		{"10.0.0.1-10.0.0.9", 1, 9},
+		{"10.0.0.200-10.0.1.8", 200, 256 + 8},
+		{"10.0.0.0/23", 0, 511},
+	}
+	p := pats[vsymChoice("pattern", len(pats))]
+	neg := vsymBool("negated")
+	op := logql.OpEq
+	if neg {
+		op = logql.OpNotEq
+	}
+	proc, err := buildIPLabelFilter(&logql.IPFilter{Label: "addr", Op: op, Value: p.text})
+	vsymAssert(err == nil, "ip label filter builds")
+	line := vsymString("line", 1)
+	out, keep := proc.Process(1, line, set)
+	switch kind {
+	case 1:
+		vsymAssert(!keep, "a record without the label does not satisfy an ip comparison")
+	case 2:
+		vsymAssert(keep && out == line && !verifNoErr(set), "a value that is no address keeps the line and flags __error__")
+	case 3:
+		vsymAssert(keep == neg && verifNoErr(set), "an IPv6 address is outside every IPv4 pattern")
+	case 4:
+		// an IPv4-mapped IPv6 address: not judged (the library keeps it distinct from the IPv4 address)
+		vsymAssert(verifNoErr(set), "a well-formed address raises no error")
+	default:
+		n := c*256 + d
+		inside := p.lo <= n && n <= p.hi
+		vsymAssert(keep == (inside != neg), "kept iff the address is inside the pattern (= ip) / outside it (!= ip)")
+		vsymAssert(!keep || out == line, "a kept line is unchanged")
+		vsymAssert(verifNoErr(set), "a well-formed address raises no error")
+	}
+	vsymReach("C01_ip_label_filter")
 }
